@@ -28,6 +28,16 @@ def lane_task(t):
         r = A.logsoftmax(x, axis=ax)
     elif fn == "softmax_crossentropy":
         r = LS.softmax_crossentropy(x, np.array(t["labels"]))
+    elif fn == "multiclass_hinge":
+        r = LS.multiclass_hinge(x, np.array(t["labels"]), hinge=t["hinge"])
+    elif fn == "focal_loss":
+        r = LS.focal_loss(x, np.array(t["labels"]), alpha=t["alpha"], gamma=t["gamma"])
+    elif fn == "margin_ranking_loss":
+        x2 = mg.tensor(np.array(t["x2"], dtype=np.float64).reshape(t["shape"]))
+        r = LS.margin_ranking_loss(x, x2, np.array(t["y"]) if isinstance(t["y"], list) else t["y"], margin=t["margin"])
+        g = np.array(t["g"], dtype=np.float64).reshape(r.shape)
+        r.backward(g)
+        return {"out_shape": list(r.shape), "out": r.data.ravel().tolist(), "grad": x.grad.ravel().tolist(), "grad2": x2.grad.ravel().tolist()}
     elif fn == "norm":
         r = mg.linalg.norm(x, ord=t.get("ord"), axis=ax, keepdims=t.get("keepdims", False))
     elif fn == "batchnorm":
